@@ -345,6 +345,13 @@ func (x *Exec) callContract(fr *Frame, st *State, in ssa.Instruction, fc *FuncCo
 	}
 	old := st.Clone()
 	x.havocModifies(st, env, fc)
+	// the callee may have allocated
+	nr := Const(freshName("ref:next"), SInt)
+	st.Assume(Ge(nr, st.NextRef))
+	st.NextRef = nr
+	if len(fc.Modifies) > 0 {
+		st.assumeHeapWF()
+	}
 	res := x.freshResultsAssumed(st, fn.Signature)
 	post := contractEnv(x, fc, fn, args, st)
 	post.old = old
